@@ -37,10 +37,19 @@ fn other_seeds(s: &Scalar, all_bytes: bool) -> Vec<(String, Scalar)> {
 }
 
 fn keyed_case<P: G>(cfg: Cfg, tier: Tier) -> Box<dyn Case> {
-    case(format!("{}/{}", P::NAME, cfg.key()), move |_v| {
+    keyed_case_variant::<P>(cfg, tier, false)
+}
+
+/// `zero_component`: the last blinding component of the commitment is zero (a mask like any other: recovering it with the
+/// prover's seed succeeds, and the verdict does not depend on it)
+fn keyed_case_variant<P: G>(cfg: Cfg, tier: Tier, zero_component: bool) -> Box<dyn Case> {
+    case(format!("{}/{}{}", P::NAME, cfg.key(), if zero_component { "/zero-blinding-component" } else { "" }), move |_v| {
         fg::clear_intern();
         let mut res = CaseResult::new("explored");
         let mut wit = Wit::default_for(&cfg);
+        if zero_component {
+            wit.blindings[0][cfg.d - 1] = Scalar::ZERO;
+        }
         let s = seed_scalar(5);
         wit.seed = Some(s);
         let built = build_cached::<P>(&cfg, &wit).honest();
@@ -367,6 +376,10 @@ pub fn run(rep: &mut Report) {
     for cfg in lattice(tier.thorough()).into_iter().filter(|c| c.m == 1 && c.n > 1) {
         cases.push(keyed_case::<F>(cfg, tier));
         cases.push(keyed_case::<RistrettoPoint>(cfg, tier));
+        if tier.thorough() || cfg.n <= 8 {
+            cases.push(keyed_case_variant::<F>(cfg, tier, true));
+            cases.push(keyed_case_variant::<RistrettoPoint>(cfg, tier, true));
+        }
     }
     for d in [1usize, 2] {
         cases.push(batch_consistency_case::<F>(d));
